@@ -26,14 +26,14 @@ import (
 )
 
 type program struct {
-	Name   string `json:"name"`
-	Src    string `json:"src"`
-	Expect string `json:"expect"` // canonical rendering of the expected result ("" = see Check)
+	Name   string   `json:"name"`
+	Src    string   `json:"src"`
+	Expect string   `json:"expect"`          // canonical rendering of the expected result ("" = see Check)
 	Multi  []string `json:"multi,omitempty"` // several acceptable results (fan-in: checked by per-producer order instead)
-	FanIn  bool   `json:"fanin,omitempty"`
-	ErrOK  bool   `json:"err,omitempty"` // the program is expected to end with an error (and no panic)
-	Bound  int    `json:"bound"`
-	Stages int    `json:"stages"`
+	FanIn  bool     `json:"fanin,omitempty"`
+	ErrOK  bool     `json:"err,omitempty"` // the program is expected to end with an error (and no panic)
+	Bound  int      `json:"bound"`
+	Stages int      `json:"stages"`
 }
 
 func render(v interface{}) string {
@@ -291,7 +291,7 @@ func run(c *common.Ctx) *common.Result {
 		completed := -1
 		for _, bound := range bounds {
 			st := explore.DFS(explore.Options{Bound: bound, MaxExecs: 3000000, Deadline: c.Deadline}, func(r *explore.Run) bool {
-				o := vmrun.Run(stmt, newEnv(), r, vmrun.Config{Fuel: 5000})
+				o := vmrun.Run(stmt, newEnv(), r, vmrun.Config{Fuel: 600, MaxSteps: 4000})
 				res.Add("transitions", int64(o.Steps))
 				if r.Err != nil {
 					res.Note("replay divergence in " + p.Name + ": " + r.Err.Error())
@@ -304,6 +304,10 @@ func run(c *common.Ctx) *common.Result {
 					choices := append([]int{}, r.Choices...)
 					res.Violate(common.Violation{Class: cl + "/" + strings.SplitN(p.Name, "/", 2)[0], Case: p.Name + "\n" + p.Src, Detail: d + " | schedule=" + fmt.Sprint(choices),
 						Replay: replayData{Program: p, Choices: choices}})
+					// one counterexample per program is enough: stop exploring it (a
+					// program that no longer terminates would otherwise be unrolled at
+					// every one of its thousands of schedule points)
+					return false
 				}
 				return o.Verdict != sched.Stuck
 			})
@@ -362,7 +366,7 @@ func coverage(c *common.Ctx, r *common.Result) map[string]interface{} {
 		"programs":                      r.Counts["programs"],
 		"programs_all_schedules":        r.Counts["programs_all_schedules"],
 		"max_schedule_points":           r.GetMax("points"),
-		"rule": "pipeline programs (1-3 stages, channel capacities 0/1/2, element types int64/string/interface/float64 incl. values needing conversion, 1-3 items, three consumer forms, fan-in of two producers) plus sequential closed-channel and go-argument facts; every schedule at channel granularity within the preemption bound is executed on the real interpreter under the cooperative scheduler; states = distinct (program, outcome) pairs; transitions = scheduler steps; traces_validated_against_impl = free-running executions (real goroutines and channels, GOMAXPROCS 1/2/16) whose outcome was confirmed to lie in the explored outcome set (conformance of the channel shim)",
+		"rule":                          "pipeline programs (1-3 stages, channel capacities 0/1/2, element types int64/string/interface/float64 incl. values needing conversion, 1-3 items, three consumer forms, fan-in of two producers) plus sequential closed-channel and go-argument facts; every schedule at channel granularity within the preemption bound is executed on the real interpreter under the cooperative scheduler; states = distinct (program, outcome) pairs; transitions = scheduler steps; traces_validated_against_impl = free-running executions (real goroutines and channels, GOMAXPROCS 1/2/16) whose outcome was confirmed to lie in the explored outcome set (conformance of the channel shim)",
 	}
 }
 
@@ -381,7 +385,7 @@ func replay(c *common.Ctx, path string) int {
 	bad := false
 	for round := 0; round < 2; round++ {
 		r := &explore.Run{Prefix: rd.Choices}
-		o := vmrun.Run(stmt, newEnv(), r, vmrun.Config{Fuel: 5000, Record: true})
+		o := vmrun.Run(stmt, newEnv(), r, vmrun.Config{Fuel: 600, MaxSteps: 4000, Record: true})
 		if r.Err != nil {
 			fmt.Println("replay diverged:", r.Err)
 			return 2
